@@ -28,6 +28,8 @@ def run_one(args):
     hits, unknown = [], []
     for p in PROPS:
         code, outcomes = check_property(p, "quick", 0, overlay=ov, quiet=True, write=False)
+        if code == 2 and not outcomes:
+            unknown.append(p + ".*")
         for o in outcomes:
             if o.verdict == "VIOLATION":
                 hits.append(o.rd.id)
